@@ -34,7 +34,7 @@ def REQUIRED(tier):
 
 
 def _required(tier):
-    return ["bytes_roundtrips", "object_roundtrips", "edits_applied", "edits_refused_file_identical", "sky:dec_in_(-1,0)", "sky:carry_59.99",
+    return ["azimuth:outside_0_360", "bytes_roundtrips", "object_roundtrips", "edits_applied", "edits_refused_file_identical", "sky:dec_in_(-1,0)", "sky:carry_59.99",
             "frame:pulsarcentric", "frame:barycentric", "frame:topocentric", "edit:absent_key", "edit:unknown_key", "edit:wrong_type", "edit:out_of_range"]
 
 
@@ -157,6 +157,15 @@ def _sky(rng):
     return float(rng.random() * 24), -float(rng.random()) * 1e-3, "dec_in_(-1,0)"
 
 
+def _azimuth(rng, ctx):
+    """Azimuth as telescopes log it: [0,360) mostly, but cable-wrap mounts record values below 0 and above 360 (finite field values are in scope)."""
+    r = rng.random()
+    if r < 0.7:
+        return float(rng.uniform(0, 360))
+    ctx.count("azimuth:outside_0_360")
+    return float(rng.choice([-47.5, -0.25, 360.0, 401.125, 450.0, float(rng.uniform(-270, 0)), float(rng.uniform(360, 540))]))
+
+
 def _object(case, ctx):
     from astropy import units as u
     from astropy.coordinates import Angle, SkyCoord
@@ -178,7 +187,7 @@ def _object(case, ctx):
             foff=float(rng.choice([-1, 1]) * rng.choice([0.1, 1 / 3, 0.390625, 4.0, float(rng.random() * 10 + 1e-3)])),
             fch1=float(rng.uniform(50, 5000)), nbits=nbits, tsamp=float(10 ** rng.uniform(-6, -1)),
             tstart=float(rng.uniform(40000, 70000)), nsamples=0, nifs=int(rng.integers(1, 5)),
-            coord=SkyCoord(ra_h * u.hourangle, dec_d * u.deg), azimuth=Angle(float(rng.uniform(0, 360)) * u.deg),
+            coord=SkyCoord(ra_h * u.hourangle, dec_d * u.deg), azimuth=Angle(_azimuth(rng, ctx) * u.deg),
             zenith=Angle(float(rng.uniform(0, 90)) * u.deg), telescope=str(rng.choice(tels)), backend=str(rng.choice(backs)),
             source=_rand_str(rng, 1, 30 if rng.random() < 0.8 else 120), frame=frame, ibeam=int(rng.integers(0, 14)), nbeams=int(rng.integers(0, 14)),
             dm=float(rng.choice([0.0, float(rng.uniform(0, 3000))])), rawdatafile=_rand_str(rng, 0, 40 if rng.random() < 0.7 else 300),
